@@ -4,10 +4,18 @@ package parser
 
 // VerifHook, when set, is called at the synchronisation points of the
 // lexer and the parser (verification hook; build tag verif).
-var VerifHook func(id int)
+var VerifHook func(id int, cancelled bool)
 
-func verifPoint(id int) {
+func verifPoint(id int, cancel <-chan struct{}) {
 	if h := VerifHook; h != nil {
-		h(id)
+		cancelled := false
+		if cancel != nil {
+			select {
+			case <-cancel:
+				cancelled = true
+			default:
+			}
+		}
+		h(id, cancelled)
 	}
 }
